@@ -79,7 +79,8 @@ def singleRun (obj : Sim κ ρ) (t : Task κ ρ) : Except Err (Sim κ ρ) :=
     else
       let eff := obj.initSeed.getD s
       .ok { cfg := c, seed := s, initSeed := some eff, results := some (simulate c eff) }
-  else .ok { obj with cfg := c, seed := s }
+  else if Gen.doRunFalseSkipsInit then .ok { obj with cfg := c, seed := s }
+  else .ok { obj with cfg := c, seed := s, initSeed := some (obj.initSeed.getD s) }
 
 /-- The task run on its own private copy: what "running that member alone" means. -/
 def runAlone (t : Task κ ρ) : Except Err (Sim κ ρ) := singleRun simulate t.sim t
@@ -98,8 +99,14 @@ structure Args (κ : Type) where
   iterSeeds : Option (List Int) := none
   /-- `iterpars = {<another parameter>: [...]}`, each value identified with the configuration it yields -/
   iterCfgs : Option (List κ) := none
+  /-- `sim_args` / extra keyword arguments: `rand_seed=` and another parameter applied to EVERY run (after the
+      reseed; an `iterpars` entry for the same key wins) -/
+  simSeed : Option Int := none
+  simCfg : Option κ := none
   doRun : Bool := true
-  deriving Repr
+  /-- object identity of the entries of a list of sims: entries `i`, `j` are the same Python object iff
+      `ident i = ident j` (values `≤` the list length; the identity for a list of distinct objects) -/
+  ident : Nat → Nat := id
 
 /-- `n_runs` after the `iterpars` loop: the common length of the entries, `ValueError` on a mismatch. -/
 def nRunsOf (a : Args κ) : Except Err Nat :=
@@ -118,12 +125,12 @@ def tasksOf (tg : Target κ ρ) (a : Args κ) : Except Err (List (Task κ ρ)) :
   | .single s =>
       let rs := a.reseed.getD Gen.reseedDefaultSingle
       pure ((List.range n).map fun i =>
-        { sim := s, ind := i, reseed := rs, seedArg := a.iterSeeds.bind (·[i]?), cfgArg := a.iterCfgs.bind (·[i]?),
-          doRun := a.doRun })
+        { sim := s, ind := i, reseed := rs, seedArg := (a.iterSeeds.bind (·[i]?)).or a.simSeed,
+          cfgArg := (a.iterCfgs.bind (·[i]?)).or a.simCfg, doRun := a.doRun })
   | .list l =>
       let rs := a.reseed.getD Gen.reseedDefaultList
       pure ((List.range l.length).zip l |>.map fun (i, s) =>
-        { sim := s, ind := i, reseed := rs, seedArg := none, cfgArg := none, doRun := a.doRun })
+        { sim := s, ind := i, reseed := rs, seedArg := a.simSeed, cfgArg := a.simCfg, doRun := a.doRun })
 
 /-! ### serial execution (`parallel=False`): a loop over private copies -/
 
@@ -176,11 +183,16 @@ def poolChunk (n workers : Nat) : Nat :=
   let q := n / (4 * workers)
   if n % (4 * workers) = 0 then q else q + 1
 
-/-- Which copy policy applies: a list of distinct sim objects is pickled one object per task whatever the
-    chunking; a replicated single sim shares per chunk in the code as it is. -/
-def shareOf (v : Variant) (tg : Target κ ρ) (chunk : Nat) : Nat → Nat :=
+/-- a list of sims: two tasks get the same unpickled object iff they are in the same chunk AND their list entries
+    are the same object (pickle memoises per object within one chunk) -/
+def shareList (chunk n : Nat) (ident : Nat → Nat) : Nat → Nat := fun i => (i / chunk) * (n + 1) + ident i
+
+/-- Which copy policy applies in the code as it is: a replicated single sim shares per chunk; list entries
+    share per chunk when they are the same object (distinct objects are always private). `.spec`: private. -/
+def shareOf (v : Variant) (tg : Target κ ρ) (chunk : Nat) (ident : Nat → Nat) : Nat → Nat :=
   match v, tg with
   | .asis, .single _ => shareChunk chunk
+  | .asis, .list l => shareList chunk l.length ident
   | _, _ => sharePrivate
 
 inductive Mode where
@@ -191,7 +203,7 @@ inductive Mode where
 def multiRun (v : Variant) (tg : Target κ ρ) (a : Args κ) (par : Bool) (chunk : Nat) (sched : List (Nat × Nat)) :
     Except Err (List (Sim κ ρ)) := do
   let tasks ← tasksOf tg a
-  if par then execPar simulate tasks (shareOf v tg chunk) sched else execSerial simulate tasks
+  if par then execPar simulate tasks (shareOf v tg chunk a.ident) sched else execSerial simulate tasks
 
 /-! ### MultiSim.run: mode dispatch and the in-place hand-over -/
 
@@ -226,6 +238,28 @@ def msimRun (v : Variant) (tg : Target κ ρ) (a : Args κ) (mode : Mode) (inpla
       match tg with
       | .single _ => pure ⟨callersOf tg, out⟩
       | .list l => pure ⟨if inplace && out.length == l.length then out else l, out⟩
+
+/-- `MultiSim.init_sims()` / `MultiSim(..., initialize=True)`: `self.sims = multi_run(sims, **run_args, do_run=False)`
+    (in parallel unless `parallel=False` is among the run arguments): a list of reseeded, not yet run copies. -/
+def initSims (v : Variant) (tg : Target κ ρ) (a : Args κ) (par : Bool) (chunk : Nat) (sched : List (Nat × Nat)) :
+    Except Err (List (Sim κ ρ)) :=
+  multiRun simulate v tg { a with doRun := false } par chunk sched
+
+/-- prepare, then run: `msim = MultiSim(target, initialize=True, ...); msim.run()`. The second step sees a LIST. -/
+def msimInitRun (v : Variant) (tg : Target κ ρ) (a : Args κ) (mode : Mode) (inplace : Bool) (chunk : Nat)
+    (sched₁ sched₂ : List (Nat × Nat)) : Except Err (MSimOut κ ρ) := do
+  let prepared ← initSims simulate v tg a (mode != .serial) chunk sched₁
+  -- the prepared list holds one object per unpickled copy of the first step
+  let out ← msimRun simulate v (.list prepared) { a with ident := shareOf v tg chunk a.ident } mode inplace chunk sched₂
+  pure ⟨callersOf tg, out.sims⟩
+
+/-- `ss.parallel(*sims, **kwargs)`: `MultiSim(sims=<one list>, **kwargs).run()` — a list also for a single sim. -/
+def parallelCall (v : Variant) (sims : List (Sim κ ρ)) (a : Args κ) (mode : Mode) (inplace : Bool) (chunk : Nat)
+    (sched : List (Nat × Nat)) : Except Err (MSimOut κ ρ) :=
+  if Gen.parallelWrapsList then msimRun simulate v (.list sims) a mode inplace chunk sched
+  else match sims with
+    | [s] => msimRun simulate v (.single s) a mode inplace chunk sched
+    | _ => msimRun simulate v (.list sims) a mode inplace chunk sched
 
 end Run
 
@@ -300,9 +334,18 @@ def reduce (sqrtF : Rat → Rat) (useMean : Bool) (k qlo qhi : Rat) (members : L
 def reduceKey (v : Variant) (npts : Nat) (sqrtF : Rat → Rat) (useMean : Bool) (k qlo qhi : Rat)
     (members : List (List Rat)) : Except Err (List Band) :=
   match v, members with
-  | .asis, m :: _ =>
-      if m.length = npts then .ok (reduce sqrtF useMean k qlo qhi members) else .error .valueErr
-  | _, _ => .ok (reduce sqrtF useMean k qlo qhi members)
+  | .asis, _ =>
+      if members.all (·.length == npts) then .ok (reduce sqrtF useMean k qlo qhi members) else .error .valueErr
+  | .spec, [] => .ok []
+  | .spec, m :: ms =>
+      -- members on different time lines cannot be reduced at all: rejected (this is not a defect)
+      if ms.all (·.length == m.length) then .ok (reduce sqrtF useMean k qlo qhi members) else .error .valueErr
+
+/-- `reduce(quantiles=…, use_mean=…, bounds=…)` for one key: the argument handling is the regenerated
+    `Gen.boundsArg` / `Gen.quantilesArg` (a default applies only when the argument was not given). -/
+def reduceCall (v : Variant) (npts : Nat) (sqrtF : Rat → Rat) (useMean : Bool) (bounds : Option Rat)
+    (quantiles : Option (Rat × Rat)) (members : List (List Rat)) : Except Err (List Band) :=
+  reduceKey v npts sqrtF useMean (Gen.boundsArg bounds) (Gen.quantilesArg quantiles).1 (Gen.quantilesArg quantiles).2 members
 
 /-- `MultiSim.summarize(method=…)` for one key, from the per-member summary numbers. -/
 inductive SumMethod where
